@@ -306,7 +306,14 @@ func (v *vsync) Process(event *firebolt.Event) (*firebolt.Event, error) {
 	case "filter":
 		return nil, nil
 	case "error":
+		if oracleHash(v.spec.seed+7, v.spec.idx, payload)%2 == 0 {
+			// a failure may come with a (partial) result; it is a failure all the same
+			return event.WithPayload(payload + "!partial"), v.spec.makeErr(payload)
+		}
 		return nil, v.spec.makeErr(payload)
+	}
+	if o.results[0] == payload {
+		return event, nil // pass the very same event on
 	}
 	return event.WithPayload(o.results[0]), nil
 }
@@ -323,6 +330,9 @@ func (v *vfanout) Process(event *firebolt.Event) ([]firebolt.Event, error) {
 		}
 		return []firebolt.Event{}, nil
 	case "error":
+		if oracleHash(v.spec.seed+7, v.spec.idx, payload)%2 == 0 {
+			return []firebolt.Event{*event.WithPayload(payload + "!partial0"), *event.WithPayload(payload + "!partial1")}, v.spec.makeErr(payload)
+		}
 		return nil, v.spec.makeErr(payload)
 	}
 	var out []firebolt.Event
@@ -348,7 +358,11 @@ func (v *vasync) ProcessAsync(event *firebolt.AsyncEvent) {
 		case "error":
 			event.ReturnError(s.makeErr(payload))
 		default:
-			event.ReturnEvent(event.WithPayload(o.results[0]))
+			if o.results[0] == payload {
+				event.ReturnEvent(event) // like the elasticsearch node: hand back the very same event
+			} else {
+				event.ReturnEvent(event.WithPayload(o.results[0]))
+			}
 		}
 		s.pending.Done()
 	}
